@@ -27,7 +27,11 @@ CLAIM = {
             "given && enclosing class in jar && declared, a missing enclosing class of an applied nest is created under the "
             "enclosing name and registered, the jar index is keyed by the class name; (R14.3) the attribute synthesis table "
             "(EnclosingMethod iff Anonymous|Local, outer_class iff Inner, inner_name iff Inner|Local with the digit prefix "
-            "stripped for Local, sources of every attribute field, unlisted classes untouched); (R14.4) apply_/undo_nests_to_"
+            "stripped for Local, sources of every attribute field, unlisted classes untouched), decided per cell nest type x "
+            "enclosing method given/absent (EnclosingMethod is written for anonymous/local nests without an enclosing method too, "
+            "method = None), a cell being (values, path condition): an attribute write, the InnerClasses push or (R14.2) the creation "
+            "of a missing enclosing class that happens only under a condition the cell's inputs leave undecided (state of the class, "
+            "access flags, an early return) is a violation naming that condition; (R14.4) apply_/undo_nests_to_"
             "mappings rebuild every field of the mappings tree as identity / container map / source-translator map_*_desc, "
             "class names through the source translator (key) and the translated-nests translator (second name), flags true/false; "
             "map_nests keeps every nest and builds each field as specified (owner of the enclosing method = untranslated enclosing "
@@ -42,7 +46,7 @@ CLAIM = {
             "exempt), hex/binary/decimal access parsing. Trusted: rustc HIR/typeck; the abstract semantics of the std/indexmap "
             "combinators listed in lib/c14_util.py; spec/nesting.json.",
     "technique": "static analysis: abstract evaluation (pattern-matrix evaluator + name/table/digit-class domains) of typed HIR "
-                 "against decision tables, sibling agreement, structure-preserving-map conformance, must-pass-through",
+                 "against decision tables whose cells carry the path conditions of the recorded effects, sibling agreement, structure-preserving-map conformance, must-pass-through",
 }
 
 KINDS = ("Anonymous", "Inner", "Local")
@@ -77,6 +81,18 @@ def judge(R, rid, key, got, want, sp=None, detail=None, show_want=None, ev=None)
         R.unrecognised(rid, key, "abstract evaluation left an uninterpreted value: %s" % s[:300], sp)
         return False
     return R.inst(rid, key, False, sp=sp, detail=detail, expect=show_want or U.show(want), got=U.show(got)[:600])
+
+
+def conditions_of(ev, effects):
+    """the undecided conditions (texts, in order, without repetition) under which the recorded effects were executed.
+    A table cell fixes every input the specification lets the decision depend on, so a condition that is still undecided
+    in a cell depends on something else: it is part of the cell and is compared with the specification's `unconditionally`."""
+    out = []
+    for e in effects:
+        for g in ev.guards_of(e):
+            if g not in out:
+                out.append(g)
+    return out
 
 
 def eval_with_lets(ev, root, e, env, depth=0):
@@ -430,9 +446,11 @@ def r14_2(ctx, R):
                             okc = (len(ins) == 1 and ins[0][3][0] == "v" and ins[0][3][1] == "ClassFile::new" and name_idx is not None
                                    and name_idx < len(ins[0][3][2]) and ins[0][3][2][name_idx] == U.name("E"))
                             reg = U.key_of(U.name("E")) in present[1]
-                            R.inst(rid, "encl-created:" + key[5:], okc and reg, sp=clo["sp"],
+                            cond = conditions_of(ev, ins + [e for e in ev.fx if e[0] == "insert" and e[2] == U.name("E")])
+                            R.inst(rid, "encl-created:" + key[5:], okc and reg and not cond, sp=clo["sp"],
                                    expect="created[E] = ClassFile::new(.., name = E, ..) and E registered as present",
-                                   got="effects %s; registered=%s" % ([(e[0], e[1], U.show(e[2])) for e in ev.fx], reg),
+                                   got="effects %s; registered=%s%s" % ([(e[0], e[1], U.show(e[2])) for e in ev.fx], reg,
+                                                                         "; only when " + " and ".join(cond)[:300] if cond else ""),
                                    detail="an applied nest whose enclosing class is not in the jar must create it under nest.encl_class_name")
     ok_t = bool(ptypes) and all(re.search(r"Result<(i32|i64|i128|isize|u32|u64|u128|usize),", t or "") for t in ptypes)
     R.inst(rid, "anonymous-index-type", ok_t, sp=clo["sp"], expect="an integer type of at least %d bits" % spec["filter"]["anonymous_index_min_bits"], got=sorted(str(t) for t in ptypes))
@@ -476,7 +494,10 @@ def r14_3(ctx, R):
     R.rule(rid, "attribute synthesis table for a class listed in the filtered nests table (lookup by the class's own name): "
                 "EnclosingMethod{class = enclosing class, method = enclosing method} iff Anonymous|Local; exactly one InnerClasses entry "
                 "with inner_class = the class, outer_class = enclosing class iff Inner, inner_name iff Inner|Local (digit prefix stripped "
-                "for Local), flags = the nest's access flags; a class that is not listed is returned untouched (JVMS 4.7.6, 4.7.7)")
+                "for Local), flags = the nest's access flags; a class that is not listed is returned untouched (JVMS 4.7.6, 4.7.7). "
+                "The table is decided per cell (nest type x enclosing method given/absent); a cell is (attribute values, condition): a "
+                "condition the cell's inputs leave undecided (state of the class, flags, anything outside the table) on the path to an "
+                "attribute write is compared with the specification's `unconditionally`")
     fns = [b for b in c.bodies if b.get("name") and any(n.get("k") == "struct" and n.get("adt") == "duke::tree::class::InnerClass" for n in H.walk(b["body"]))]
     if not R.anchor(rid, "the function of dukenest that builds an InnerClass entry", len(fns) == 1):
         return
@@ -507,16 +528,31 @@ def r14_3(ctx, R):
         if want_em:
             want_v = T.V("Some", ("st", "EnclosingMethod", {"class": nest[2][A["sources"]["EnclosingMethod.class"]],
                                                             "method": nest[2][A["sources"]["EnclosingMethod.method"]]}))
-            judge(R, rid, "attr:%s:EnclosingMethod" % kind, em[0][2] if len(em) == 1 else T.V("absent" if not em else "assigned-%d-times" % len(em)), want_v, sp=fn["sp"],
-                  detail="local and anonymous classes carry EnclosingMethod{class: nest.encl_class_name, method: nest.encl_method}")
+            cond = conditions_of(ev, em)
+            if cond:
+                # the cell is (value, condition): the specification writes the attribute for every nest of this cell
+                R.inst(rid, "attr:%s:EnclosingMethod" % kind, False, sp=fn["sp"],
+                       expect="%s, unconditionally for a nest of this kind" % U.show(want_v),
+                       got="%s, but only when %s" % (" / ".join(U.show(e[2])[:200] for e in em), " and ".join(cond)[:400]),
+                       detail="EnclosingMethod is written iff the nest is anonymous or local (whether or not it has an enclosing method); "
+                              "no further condition may gate it")
+            else:
+                judge(R, rid, "attr:%s:EnclosingMethod" % kind, em[0][2] if len(em) == 1 else T.V("absent" if not em else "assigned-%d-times" % len(em)), want_v, sp=fn["sp"],
+                      detail="local and anonymous classes carry EnclosingMethod{class: nest.encl_class_name, method: nest.encl_method}" +
+                             ("; this cell differs from %s/method-given only in nest.encl_method = None (class declared in an initialiser): the "
+                              "attribute is still written, with method = None - its presence must not depend on the enclosing method" % kind0
+                              if meth == "absent" else ""))
         else:
-            R.inst(rid, "attr:%s:EnclosingMethod" % kind, not em, sp=fn["sp"], expect="no EnclosingMethod for a member class", got=[U.show(e[2]) for e in em])
+            R.inst(rid, "attr:%s:EnclosingMethod" % kind, not em, sp=fn["sp"], expect="no EnclosingMethod for a member class",
+                   got=[U.show(e[2]) + (" when " + " and ".join(conditions_of(ev, [e])) if ev.guards_of(e) else "") for e in em])
         n_inst += 1
         other = [e for e in asg if e[1] != em_target]
         R.inst(rid, "attr:%s:no-other-assignment" % kind, not other, sp=fn["sp"], got=[(e[1], U.show(e[2])) for e in other], nontrivial=False)
         ic = [e for e in psh if e[3] == U.term("vec-inside", cfv[2]["inner_classes"]) and e[2][0] == "st" and e[2][1] == "InnerClass"]
-        if not R.inst(rid, "attr:%s:one-InnerClasses-entry" % kind, len(ic) == 1 and len(psh) == 1, sp=fn["sp"],
-                      got=[(e[1], U.show(e[2])[:200]) for e in psh], expect="exactly one push of an InnerClass onto %s.inner_classes" % cf_name):
+        cond = conditions_of(ev, psh)
+        if not R.inst(rid, "attr:%s:one-InnerClasses-entry" % kind, len(ic) == 1 and len(psh) == 1 and not cond, sp=fn["sp"],
+                      got=[(e[1], U.show(e[2])[:200]) for e in psh] + (["only when " + " and ".join(cond)[:400]] if cond else []),
+                      expect="exactly one push of an InnerClass onto %s.inner_classes, unconditionally for a listed class" % cf_name):
             continue
         got = ic[0][2][2]
         src = A["sources"]
@@ -987,7 +1023,17 @@ def r14_5(ctx, R, rl):
             rlk = ctx["roles"]["read_line"]["key"]
             from_line = any(x.get("k") in ("call", "mcall") and ((x.get("callee") or {}).get("inst_key") or (x.get("callee") or {}).get("key")) == rlk for x in vals)
             conds = [k for k, _, _ in H.path_conditions(rfr["body"], adds[0]) if k in ("if", "iflet", "arm", "after-exit")]
-            in_loop = any(p.get("k") == "for" for p in (H.parents_of(rfr["body"], adds[0]) or []))
+            chain = H.parents_of(rfr["body"], adds[0]) or []
+            in_loop = any(p.get("k") == "for" for p in chain)
+            # the same loop as an iterator chain: the add sits in the closure of `<iterator>.for_each(..)`, or of
+            # `<iterator>.try_for_each(..)` whose result is propagated with `?` / returned (an error still ends the read)
+            for i, p in enumerate(chain):
+                if p.get("k") == "mcall" and p["name"] in ("for_each", "try_for_each") and len(p["args"]) == 1 \
+                        and ((p.get("callee") or {}).get("path") or "").startswith("core::iter::") \
+                        and any(x is H.peel(p["args"][0]) and x.get("k") == "closure" for x in chain[i + 1:]):
+                    up = chain[i - 1] if i else {}
+                    in_loop = in_loop or p["name"] == "for_each" or up.get("k") in ("try", "ret") \
+                        or (up.get("k") == "block" and up.get("tail") is p and i == 1)
             ok = from_line and not conds and in_loop
         R.inst(rid, "every-line-added", ok, sp=rfr["sp"], expect="for each line: nests.add(read_line(line)?) unconditionally")
     R.floor(rid, 1 + 3 + 6 + 3 + 3 + 1)
